@@ -94,6 +94,43 @@ def run_one(ck, prog):
         ck.ob("C16.1", "end-bound-from-pointer-values", ok, fn=it[0]["path"], detail="the end of the control buffer must be (value of msg_control) + msg_controllen")
         ck.floor("C16.1", "end-bound computations", len(ends), 1)
         ck.ob("C16.1", "no-addr-of-in-iterator", not addr_of_pointer_sites(prog, it[0]), fn=it[0]["path"], detail="address of a pointer variable used in the traversal arithmetic")
+        # the step to the next header uses the ALIGNED length: (cmsg_len + 7) & !7 (a payload that is not a multiple of 8 - one or
+        # three descriptors - is followed by padding; stepping by the raw length lands inside it)
+        is_len = lambda z: z[0] == "field" and z[2] == "cmsg_len"  # noqa: E731
+        n_aligned, raw_steps = 0, []
+        roots = []      # expressions that decide where the next header is: what is stored into cmsg_prev, and the tests guarding it
+        for b in it[0]["blocks"]:
+            if b["id"] not in ctx.cfg.live_blocks() or b.get("cleanup"):
+                continue
+            for i, st in enumerate(b["stmts"]):
+                if st["k"] != "assign":
+                    continue
+                if st["rv"]["k"] == "binop" and st["rv"]["op"] == "BitAnd":
+                    e = ctx.prov.rvalue(st["rv"], (b["id"], i))
+                    if mentions(e[2], ctx.prov, is_len) and fold(e[3]) in (0xFFFFFFFFFFFFFFF8, -8):
+                        n_aligned += 1
+                if st["dst"].get("p") and any(pe["k"] == "field" and pe.get("n") == "cmsg_prev" for pe in st["dst"]["p"]):
+                    roots.append((st.get("sp"), ctx.prov.rvalue(st["rv"], (b["id"], i))))
+            t = b["term"]
+            if t["k"] == "switch":
+                d = ctx.prov.operand(t["discr"], (b["id"], len(b["stmts"])))
+                if mentions(d, ctx.prov, is_len) and mentions(d, ctx.prov, lambda z: z[0] == "field" and z[2] == "msg_controllen"):
+                    roots.append((t.get("sp"), d))
+        for sp, root in roots:
+            for e in walk_deep(root, ctx.prov, limit=400):
+                if e[0] == "bin" and e[1] == "Add":
+                    for side, other in ((e[2], e[3]), (e[3], e[2])):
+                        if not mentions(side, ctx.prov, is_len):
+                            continue
+                        ss = strip_casts(side)
+                        aligned = isinstance(ss, tuple) and ss[0] == "bin" and ss[1] in ("BitAnd", "Add", "Sub") and mentions(ss, ctx.prov, lambda z: z[0] == "bin" and z[1] == "BitAnd" and fold(z[3]) in (0xFFFFFFFFFFFFFFF8, -8))
+                        rounding = fold(other) in (7, 8) and not mentions(side, ctx.prov, lambda z: z[0] == "bin" and z[1] == "BitAnd")
+                        if not aligned and not rounding:
+                            raw_steps.append((sp, show(e)[:120]))
+        ck.floor("C16.1", "expressions locating the next header", len(roots), 2)
+        ck.floor("C16.1", "aligned control-message lengths", n_aligned, 2)
+        ck.ob("C16.1", "next-header-step-uses-the-aligned-length", not raw_steps, fn=it[0]["path"], site=span_str(raw_steps[0][0]) if raw_steps else None,
+              detail=f"the traversal adds an unaligned cmsg_len ({raw_steps[0][1] if raw_steps else ''}): CMSG_NXTHDR must step by (cmsg_len + 7) & !7, otherwise a message whose payload is not a multiple of 8 bytes makes the next header start inside its padding")
 
     # the first header exists only if the RECEIVED control length holds one: msg_control is looked at only under msg_controllen >= size_of(cmsghdr)
     cm = [f for p2, f in prog.fns.items() if p2.startswith("rusl::platform::compat::socket::MsgHdrBorrow") and p2.endswith("::control_messages")]
